@@ -528,6 +528,9 @@ class BridgeHarness:
         func = Opaque("callback", "func")
         f = it.module_get("reactivex.observable.toasync", "to_async_")
         wrapper = it.call(f, [func, sched], {})
+        # every INVOCATION of the asynchronous function has a subject of its own (its result goes to its own subscribers): none exists before
+        # the call, a second call makes a second one
+        self.rec(ctx, uid + "/making-the-asynchronous-function-creates-no-subject-and-schedules-nothing", not subjects and not [e for e in w.log if e[0] == "schedule"])
         a1, a2 = ctx.fresh("arg1", "val"), ctx.fresh("arg2", "val")
         res = it.call(wrapper, [a1, a2], {})
         sc = [e for e in w.log if e[0] == "schedule"]
@@ -550,6 +553,12 @@ class BridgeHarness:
         else:
             okv = [e[0] for e in sub] == ["subject.on_next", "subject.on_completed"]
             self.rec(ctx, uid + "/action/emits-the-result-then-completes", okv, detail=f"{[e[0] for e in sub]}")
+        # a second invocation
+        n_s, n_sc = len(subjects), len([e for e in w.log if e[0] == "schedule"])
+        it.call(wrapper, [a2], {})
+        sc2 = [e for e in w.log if e[0] == "schedule"]
+        self.rec(ctx, uid + "/every-invocation-has-a-subject-and-a-scheduled-call-of-its-own", len(subjects) == n_s + 1 and len(sc2) == n_sc + 1,
+                 detail=f"subjects: {n_s} -> {len(subjects)}, scheduled calls: {n_sc} -> {len(sc2)}")
 
     def run_start(self, ctx):
         it, w = self.setup(ctx)
